@@ -83,8 +83,9 @@ Call(fname, body) ==
 FName == "fn"
 LoopKinds == {"foreach", "while", "for"}
 \* control statements: break / continue aimed at a loop by its name, return, break if, break <function>
-CtlKinds == {"none", "return", "break-if", "break-fn"} \cup {"break-" \o k : k \in LoopKinds} \cup {"continue-" \o k : k \in LoopKinds}
+CtlKinds == {"none", "return", "return0", "break-if", "break-fn"} \cup {"break-" \o k : k \in LoopKinds} \cup {"continue-" \o k : k \in LoopKinds}
 MkCtl(k) == CASE k = "return"           -> <<Ctl("return", "", 3)>>
+              [] k = "return0"          -> <<Ctl("return", "", 0)>>
               [] k = "break-if"         -> <<Ctl("break", "if", 0)>>
               [] k = "break-fn"         -> <<Ctl("break", FName, 0)>>
               [] k = "none"             -> <<>>
@@ -102,10 +103,15 @@ Body(p) ==
                    THEN <<Loop(p.inner, "j", <<1, 2>>, <<Out(<<"b", "$i", "$j">>)>> \o Guarded(p.c2, "j", p.w2, "2") \o <<Out(<<"c", "$i", "$j">>)>>)>>
                    ELSE <<>>
     IN <<Out(<<"s">>),
-         Loop(p.k1, "i", <<1, 2, 3>>, <<Out(<<"a", "$i">>)>> \o Guarded(p.c1, "i", p.w1, "1") \o inner \o <<Out(<<"d", "$i">>)>>),
-         Out(<<"e">>)>>
+         Loop(p.k1, "i", <<1, 2, 3>>, <<Out(<<"a", "$i">>)>> \o Guarded(p.c1, "i", p.w1, "1") \o inner \o <<Out(<<"d", "$i">>)>>)>>
+       \o (IF p.last THEN <<>> ELSE <<Out(<<"e">>)>>)
 
-Params == [k1 : LoopKinds, c1 : CtlKinds, w1 : {1, 2}, inner : LoopKinds \cup {"none"}, c2 : CtlKinds, w2 : {1, 2}]
+\* last: the outer loop is the function's last statement, so the function's exit number is the loop's
+Params == [k1 : LoopKinds, c1 : CtlKinds, w1 : {1, 2}, inner : LoopKinds \cup {"none"}, c2 : CtlKinds, w2 : {1, 2}, last : BOOLEAN]
+\* the property gives the exit number after `return n` and after a normal end; what a loop that was left by `break` reports
+\* as its own exit number is not part of it: such a function's exit number is looked at only if something follows the loop
+IsBreakOut(c) == c = "break-fn" \/ \E x \in LoopKinds : c = "break-" \o x
+ExitJudged(p) == ~p.last \/ (~IsBreakOut(p.c1) /\ ~IsBreakOut(p.c2))
 \* a loop can only be named from inside it
 Valid(p) == /\ (p.inner = "none" => (p.c2 = "none" /\ p.w2 = 1)) /\ (p.c1 = "none" => p.w1 = 1) /\ (p.c2 = "none" => p.w2 = 1)
             /\ Targets(p.c1) \subseteq {p.k1}
@@ -113,7 +119,7 @@ Valid(p) == /\ (p.inner = "none" => (p.c2 = "none" /\ p.w2 = 1)) /\ (p.c1 = "non
 Programs == {p \in Params : Valid(p)}
 
 Case(p) == LET r == Call(FName, Body(p)) IN
-           [family |-> "nest", params |-> p, body |-> Body(p), out |-> r.out, exit |-> r.exit, tk |-> r.tk, wellformed |-> r.wellformed]
+           [family |-> "nest", params |-> p, body |-> Body(p), out |-> r.out, exit |-> r.exit, exit_judged |-> ExitJudged(p), tk |-> r.tk, wellformed |-> r.wellformed]
 
 (* ------------------------------ program family 2: a block ended from a pipeline stage ---- *)
 \* function body: [while over 2 rounds {] producer -> foreach i over NStage items { a; if i = w { g; CTL; h }; d } ; e [}] ; z
@@ -154,13 +160,17 @@ ASSUME LET r == Call(FName, Body3([k1 |-> "foreach", c1 |-> "none", w1 |-> 2, c2
 ASSUME \A p \in Programs : Call(FName, Body(p)).wellformed
 ASSUME \A p \in Programs2 : Call(FName, Body2(p)).wellformed
 ASSUME \A k \in LoopKinds :
-         LET r == Call(FName, Body([k1 |-> k, c1 |-> "none", w1 |-> 1, inner |-> "none", c2 |-> "none", w2 |-> 1])) IN
+         LET r == Call(FName, Body([k1 |-> k, c1 |-> "none", w1 |-> 1, inner |-> "none", c2 |-> "none", w2 |-> 1, last |-> FALSE])) IN
          Len(r.out) = 8 /\ r.exit = 0 /\ r.tk = <<>>
 \* a loop named from the inner loop: when the kinds differ the outer loop is the one that ends
-ASSUME LET r == Call(FName, Body([k1 |-> "while", c1 |-> "none", w1 |-> 1, inner |-> "foreach", c2 |-> "break-while", w2 |-> 1])) IN
+ASSUME LET r == Call(FName, Body([k1 |-> "while", c1 |-> "none", w1 |-> 1, inner |-> "foreach", c2 |-> "break-while", w2 |-> 1, last |-> FALSE])) IN
          r.out = <<<<"s">>, <<"a", "1">>, <<"b", "1", "1">>, <<"g", "2">>, <<"e">>>>
-ASSUME LET r == Call(FName, Body([k1 |-> "foreach", c1 |-> "none", w1 |-> 1, inner |-> "foreach", c2 |-> "break-foreach", w2 |-> 1])) IN
+ASSUME LET r == Call(FName, Body([k1 |-> "foreach", c1 |-> "none", w1 |-> 1, inner |-> "foreach", c2 |-> "break-foreach", w2 |-> 1, last |-> FALSE])) IN
          Len(r.out) = 2 + 3 * 4
+\* `return 0` from a loop that is the function's last statement: exit number 0, whatever kind of loop was cancelled by it
+ASSUME \A k \in LoopKinds :
+         LET r == Call(FName, Body([k1 |-> k, c1 |-> "return0", w1 |-> 2, inner |-> "none", c2 |-> "none", w2 |-> 1, last |-> TRUE])) IN
+         r.exit = 0 /\ r.out = <<<<"s">>, <<"a", "1">>, <<"d", "1">>, <<"a", "2">>, <<"g", "1">>>>
 \* a block around the pipeline ended at item 2 of 6: the producer had started 2 items and stops before the last
 ASSUME Call(FName, Body2([wrap |-> FALSE, c |-> "return", w |-> 2])).tk = <<[lo |-> 2, hi |-> NStage - 1]>>
 ASSUME Call(FName, Body2([wrap |-> TRUE, c |-> "break-while", w |-> 3])).tk = <<[lo |-> 3, hi |-> NStage - 1]>>
